@@ -1,7 +1,7 @@
 SPECIFICATION Spec
 CONSTANTS
   N = 2
-  Intervals = {0, 1, 2}
+  Intervals = {0, 1}
   DlOffsets = {}
   Pers = {0, 1}
   Grants = {1}
